@@ -173,6 +173,10 @@ def gen_case(ch: Chooser, excl=()):
     files_b, _ = render.render_project(proj_b, rnd, features={"comments": False, "continuations": False})
     options = {"project": "P", "src_dir": "./src", "output_dir": "./doc", "preprocess": False, "parallel": 0,
                "display": ["public", "private", "protected"], "proc_internals": True, "search": False, "incl_src": True}
+    if len(data) and data[-1] % 3 == 0:
+        # `lower` converts the non-string parts of the source to lower case; character literals must survive
+        options["lower"] = True
+        feats["lower"] = True
     inits = []
     for d in _walk_vars(proj_n):
         for e in d["ents"]:
